@@ -12,7 +12,7 @@ def setup(e):
     e.opaque_handlers["store"] = _m.make_keyed_map_handler(_m._fresh_any)
 
 
-S = dict(mode="int", spec_module="spec_ldm", props=["C12", "C16"], engine_setup=setup, requires=["db_wf(self)"])
+S = dict(mode="int", spec_module="spec_ldm", props=["C12", "C16", "C13"], engine_setup=setup, requires=["db_wf(self)"])
 D = f"{DB}:DictionaryDataBase"
 KEEP = "map_has(self.database, old(K(self))) == old(map_has(self.database, K(self))) and implies(old(map_has(self.database, K(self))), map_get(self.database, old(K(self))) is old(map_get(self.database, K(self))))"
 
